@@ -249,6 +249,31 @@ MUTANTS = [
      "                DiffOp::Equal { .. } => (), // Don't record an equals diff, its unnecessary",
      "                DiffOp::Equal { .. } => break, // nothing after an equal run in a group",
      None),
+    # ---- round 5/6 rules --------------------------------------------------------------------------------------
+    ("indent-last-stmt-no-increment", "C09", "src/formatters/block.rs",
+     "                        let shape = shape.reset().increment_block_indent();\n                        super::stmt::stmt_block::format_expression_block(ctx, &expression, shape)",
+     "                        let shape = shape.reset();\n                        super::stmt::stmt_block::format_expression_block(ctx, &expression, shape)",
+     "nested-block-indent-level"),
+    ("indent-while-body-double", "C09", "src/formatters/stmt.rs",
+     "    let block_shape = shape.reset().increment_block_indent();\n    let block = format_block(ctx, while_block.block(), block_shape);",
+     "    let block_shape = shape.reset().increment_block_indent().increment_block_indent();\n    let block = format_block(ctx, while_block.block(), block_shape);",
+     "block-formatted-at-level"),
+    ("range-answer-before-scan", "C08", "src/context.rs",
+     "        // Check comments\n        let leading_trivia = node.surrounding_trivia().0;",
+     "        if let (Some(range), Some(node_start)) = (self.range, node.start_position()) {\n            if matches!(range.start, Some(start_bound) if node_start.bytes() < start_bound) {\n                return FormatNode::NotInRange;\n            }\n        }\n        // Check comments\n        let leading_trivia = node.surrounding_trivia().0;",
+     "range-answer-before-ignore-scan"),
+    ("verify-only-when-writing", "C14", "src/cli/main.rs",
+     "    let verify_output = if opt.verify {", "    let verify_output = if opt.verify && !opt.check {", "verification-choice-depends-on-more-than-verify"),
+    ("search-start-canonical", "C15", "src/cli/config.rs",
+     "        let absolute_path = self.current_directory.join(path);",
+     "        let absolute_path = self.current_directory.join(path);\n        let absolute_path = absolute_path.canonicalize().unwrap_or(absolute_path);",
+     "search-start-directory"),
+    ("glob-root-dot", "C16", "src/cli/main.rs",
+     "            let mut overrides = OverrideBuilder::new(cwd);", "            let mut overrides = OverrideBuilder::new(\".\");", "glob-override-root-not-current_dir"),
+    ("quote-bypass-on-newline", "C11", "src/formatters/general.rs",
+     "            if let StringLiteralQuoteType::Brackets = quote_type {",
+     "            if matches!(quote_type, StringLiteralQuoteType::Brackets) || literal.contains('\\n') {",
+     "quoted-string-path-without-get_quote_to_use"),
     ("loopexit-metadata", "C14", "src/cli/main.rs",
      "                    if path.is_file() {", "                    if fs::metadata(&path)?.is_file() {", "walk-loop-aborts-on"),
     ("errstatus-revert", "C13", "src/cli/main.rs",
